@@ -225,6 +225,31 @@ for rnd_, in_body in enumerate([False, True, False, True]):
     if not ok or stb.error is not None:
         leg.violation(key, f"call {rnd_} of the same function ({'in the body' if in_body else 'exiting'}): is_exiting={cb.is_exiting} "
                            f"inner_stack={cb.inner_stack!r} frames={[f.funcname for f in stb.frames]} error={stb.error!r}")
+# a registration made WHILE the children are being described (a callback argument whose repr() registers on the same stack - a lazy
+# proxy; the same happens when another thread registers): one child per callback that was registered when the description
+# started, in order, and no error
+class Registers:
+    def __init__(s, es): s.es, s.fired = es, 0
+    def __repr__(s):
+        s.fired += 1
+        s.es.callback(fn, "late")
+        return "<Registers>"
+def g_live():
+    with contextlib.ExitStack() as es:
+        es.callback(fn, 1)
+        es.callback(fn, Registers(es))
+        es.callback(fn, 3)
+        yield
+gl = g_live(); next(gl)
+leg.case("registration-during-description", True)
+stl = stackscope.extract(gl)
+cl = stl.frames[0].contexts[0]
+descs = [ch.description for ch in cl.children]
+if stl.error is not None or len(cl.children) < 3 or not all(isinstance(ch, stackscope.Context) for ch in cl.children[:3]) or \
+        [("1" in d0 or "Registers" in d0 or "3" in d0) for d0 in (descs[:3] or [""])] != [True, True, True]:
+    leg.violation("registration-during-description", f"callback registered while the stack's children were being described: {len(cl.children)} children "
+                                                     f"{descs}, error={stl.error!r}")
+gl.close()
 # pushed function carrying __wrapped__ and a closure is still a plain push
 def make_wrapped():
     def release(*a): pass
